@@ -22,7 +22,8 @@ RULE = ("program families parameterised by N (consecutive assignments, consecuti
         "first size CPython itself refuses for the *source*; x option combinations (default + the clean combination + "
         "single-option changes in quick, all 8 in thorough). A cell (family, options) holds iff every N the interpreter "
         "accepts converts, compiles and evaluates like the original. Distinct by (family, options, N); non-trivial iff "
-        "N >= 64.")
+        "N >= 64."
+        " Plus 18 spelling variants of the chain families (sharing the base family's recorded limits) and four families nested through lambda parameter *defaults* (own measured ast.unparse limits).")
 ASSUMPTIONS = ["sizes follow a geometric schedule, not every N", "a wall-clock watchdog per child only yields inconclusive",
                "failures listed in KF-size-limits are matched by (family, option dimension, stage, error class, location) and a minimal N per host; failing earlier, elsewhere or inside oneliner frames is a violation"]
 EXHAUSTIVE = {"quick": False, "thorough": False}
